@@ -7,7 +7,9 @@ import (
 	"errors"
 	"fmt"
 	"io"
+	"math/big"
 	"reflect"
+	"strconv"
 	"strings"
 
 	stdjson "encoding/json"
@@ -299,6 +301,61 @@ func stressors(r *evid.Run) {
 	}
 	docs = append(docs, strings.Repeat("[", 1000)+strings.Repeat("]", 1000), strings.Repeat(`{"a":`, 1000)+"1"+strings.Repeat("}", 1000))
 	docs = append(docs, `[1e308,1e309]`, `-1e999`, `[0.1,1e-400,123456789012345678901234567890,4.9e-324,2.2250738585072011e-308,1.7976931348623157e308,1.7976931348623159e308]`)
+	// number literals: integers within a radius of every power of two / ten at which an integer fast path, the
+	// 53-bit mantissa or a digit-count shortcut could change behaviour, in several spellings
+	radius := int64(3)
+	if r.Tier == "thorough" {
+		radius = 40
+	}
+	var centres []*big.Int
+	for _, k := range []uint{31, 32, 52, 53, 54, 62, 63, 64, 65, 70, 100, 128} {
+		centres = append(centres, new(big.Int).Lsh(big.NewInt(1), k))
+	}
+	for k := int64(15); k <= 23; k++ {
+		c := new(big.Int).Exp(big.NewInt(10), big.NewInt(k), nil)
+		centres = append(centres, c)
+		for _, m := range []int64{2, 5, 9} {
+			centres = append(centres, new(big.Int).Mul(c, big.NewInt(m)))
+		}
+	}
+	nNum := 0
+	for _, c := range centres {
+		for d := -radius; d <= radius; d++ {
+			v := new(big.Int).Add(c, big.NewInt(d)).String()
+			for _, sp := range []string{v, "-" + v, v + ".0", v + "e0", v + "0e-1", v[:1] + "." + v[1:] + "e" + strconv.Itoa(len(v)-1)} {
+				docs = append(docs, sp, "["+sp+"]", `{"k":`+sp+`}`)
+				nNum++
+			}
+		}
+	}
+	// escaped surrogate pairs: every low half with three high halves, every high half with three low halves
+	// (thorough: all 1024 x 1024 pairs), in lower and upper case hex, as value and as member name
+	nPairs := 0
+	addPair := func(hi, lo int) {
+		for _, f := range []string{"\"\\u%04x\\u%04x\"", "\"\\u%04X\\u%04X\""} {
+			lit := fmt.Sprintf(f, hi, lo)
+			docs = append(docs, lit, "{"+lit+":["+lit+`,"x"]}`)
+			nPairs++
+		}
+	}
+	for lo := 0xDC00; lo <= 0xDFFF; lo++ {
+		for _, hi := range []int{0xD800, 0xD83D, 0xDBFF} {
+			addPair(hi, lo)
+		}
+	}
+	for hi := 0xD800; hi <= 0xDBFF; hi++ {
+		for _, lo := range []int{0xDC00, 0xDE00, 0xDFFF} {
+			addPair(hi, lo)
+		}
+	}
+	if r.Tier == "thorough" {
+		for hi := 0xD800; hi <= 0xDBFF; hi++ {
+			for lo := 0xDC00; lo <= 0xDFFF; lo++ {
+				docs = append(docs, fmt.Sprintf("\"\\u%04x\\u%04x\"", hi, lo))
+				nPairs++
+			}
+		}
+	}
 	enum.Parallel(r, len(docs), func(w *enum.Worker) func(int) {
 		var cur []byte
 		w.Describe = func() any { return Case{Input: cur, InputText: string(cur)} }
@@ -317,5 +374,5 @@ func stressors(r *evid.Run) {
 		}
 	})
 	r.Sample(Case{InputText: docs[0]})
-	r.Bound("stressors: %d generated documents (look-alike string pairs, 400 two-byte strings in two orders, escape placement for string lengths 1..%d, wide objects 63..130 members, 1000-deep nesting, float64 extremes)", len(docs), maxL)
+	r.Bound("stressors: %d generated documents (look-alike string pairs, 400 two-byte strings in two orders, escape placement for string lengths 1..%d, wide objects 63..130 members, 1000-deep nesting, float64 extremes, %d integer literals within +-%d of powers of two and ten in 6 spellings, %d escaped surrogate pairs)", len(docs), maxL, nNum, radius, nPairs)
 }
